@@ -384,6 +384,49 @@ async fn bounded_search_over_histories() {
 // finalize_session): probes the assumed contracts — the serde wire round trip, `Processor::will_*` really protecting the
 // value, `extract` being the inverse of what `finalize` wrote — and the C12 protection matrix.
 // =====================================================================================================
+/// sync.every_ttl_written_is_the_configured_ttl / sync.ttl_extended_exactly_when_due: observed through the remaining
+/// TTL the store reports (no clock dependence: "almost expired" is a record written with a tenth of the TTL).
+#[tokio::test]
+async fn ttl_is_extended_to_the_full_ttl_exactly_when_due() {
+    use pavex_session::config::{TtlExtensionThreshold, TtlExtensionTrigger};
+    use pavex_session::store::SessionRecordRef;
+    let full = std::time::Duration::from_secs(1000);
+    for (trigger, threshold, written, touch, expect_full) in [
+        // (trigger, threshold, TTL the record has left, what the request does, is the deadline pushed to a full TTL?)
+        (TtlExtensionTrigger::OnStateLoadsAndChanges, Some(0.8), full / 10, "read", true),
+        (TtlExtensionTrigger::OnStateLoadsAndChanges, None, full / 10, "read", true),
+        (TtlExtensionTrigger::OnStateLoadsAndChanges, None, full / 2, "read", true),
+        (TtlExtensionTrigger::OnStateLoadsAndChanges, Some(0.3), full / 2, "read", false),
+        (TtlExtensionTrigger::OnStateChanges, None, full / 10, "read", false),
+        (TtlExtensionTrigger::OnStateChanges, None, full / 10, "write", true),
+        (TtlExtensionTrigger::OnStateLoadsAndChanges, Some(0.3), full / 2, "write", true),
+        (TtlExtensionTrigger::OnStateLoadsAndChanges, Some(0.8), full / 10, "cycle", false), // a renamed record keeps its deadline
+    ] {
+        let store = SessionStore::new(InMemorySessionStore::new());
+        let mut config = SessionConfig::default();
+        config.state.ttl = full;
+        config.state.extend_ttl = trigger.clone();
+        config.state.ttl_extension_threshold = threshold.map(|t| TtlExtensionThreshold::new(t).unwrap());
+        let id = SessionId::random();
+        let mut state = HashMap::new();
+        state.insert("user_id".into(), serde_json::json!(42));
+        store.create(&id, SessionRecordRef { state: std::borrow::Cow::Owned(state), ttl: written }).await.unwrap();
+        let mut s = Session::new(&store, &config, Some(IncomingSession::from_parts(id, Default::default())));
+        assert_eq!(s.get::<u64>("user_id").await.unwrap(), Some(42));
+        if touch == "write" { s.insert("other", 1).await.unwrap(); }
+        if touch == "cycle" { s.cycle_id(); }
+        let cookie = s.finalize().await.unwrap().unwrap();
+        let new_id: SessionId = serde_json::from_value(serde_json::from_str::<serde_json::Value>(cookie.value()).unwrap()["0"].clone()).unwrap();
+        let left = store.load(&new_id).await.unwrap().expect("the record is there").ttl;
+        let case = format!("trigger={trigger:?} threshold={threshold:?} remaining={written:?} request={touch}");
+        if expect_full {
+            assert!(left > full - std::time::Duration::from_secs(60) && left <= full, "{case}: the record must live for a full TTL ({full:?}) from now, the store reports {left:?}");
+        } else {
+            assert!(left <= written, "{case}: the deadline must not move, the store reports {left:?}");
+        }
+    }
+}
+
 mod pipeline {
     use super::*;
     use pavex::Response;
@@ -429,6 +472,39 @@ mod pipeline {
             let tampered = format!("{}x", h);
             let accepted = RequestCookies::parse_header(&tampered, &p).ok().and_then(|c| IncomingSession::extract(&c, &config.cookie));
             assert!(accepted.is_none(), "a tampered {algorithm:?} cookie was accepted");
+        }
+    }
+
+    /// extract.inverse_of_the_wire_format on the real pipeline: every JSON shape a client-side value can take
+    /// (null included) and awkward keys come back exactly, through finalize -> Set-Cookie -> Cookie -> extract.
+    #[tokio::test]
+    async fn every_json_shape_survives_the_real_cookie_pipeline() {
+        use serde_json::json;
+        let values = [json!(null), json!(true), json!(0), json!(-1.5), json!(""), json!("a \"quoted\" ; , = value"), json!([]), json!([null, 1, "x"]),
+            json!({}), json!({"nested": {"null": null, "list": [1, 2]}}), json!("ünïcödé ✓")];
+        let keys = ["k", "", "a key with spaces", "ключ", "0", "1", "null"];
+        let store = SessionStore::new(InMemorySessionStore::new());
+        let config = SessionConfig::default();
+        let p = processor(&config.cookie.name, Some(CryptoAlgorithm::Encryption));
+        for (n, v) in values.iter().enumerate() {
+            let mut s1 = Session::new(&store, &config, None);
+            let mut expected: HashMap<String, serde_json::Value> = HashMap::new();
+            for (m, k) in keys.iter().enumerate() {
+                let val = if m % 2 == 0 { v.clone() } else { values[(n + m) % values.len()].clone() };
+                s1.client_mut().insert_raw(k.to_string(), val.clone());
+                expected.insert(k.to_string(), val);
+            }
+            let mut jar = ResponseCookies::new();
+            finalize_session(Response::ok(), &mut jar, &p, s1).await.unwrap();
+            let headers: Vec<String> = jar.header_values(&p).collect();
+            let h = cookie_header(&headers[0]);
+            let cookies = RequestCookies::parse_header(&h, &p).expect("our own cookie must parse");
+            let inc = IncomingSession::extract(&cookies, &config.cookie).expect("extract must invert what finalize wrote");
+            let s2 = Session::new(&store, &config, Some(inc));
+            for (k, val) in &expected {
+                assert_eq!(s2.client().get_raw(k), Some(val), "client-side key {k:?}: the next request does not observe the value the previous one ended with");
+            }
+            assert!(!s2.client().is_empty());
         }
     }
 
